@@ -51,6 +51,8 @@ func interp{suf}(t *testing.T, rt *scnlib.RecT, steps []scnlib.Step) {{
 			call{suf}(rt, st)
 		case "skip":
 			scnlib.DoSkip(rt, st.Kind)
+		case "chdir":
+			scnlib.DoChdir()
 		case "sub":
 			if st.Suite {{
 				runSuite(t, st)
